@@ -572,6 +572,7 @@ func derMutateRaw(idx int, rng *rand.Rand) ([]byte, string) {
 func init() {
 	mon.Register(&mon.Check{
 		ID:          "C15",
+		Once:        c15Once,
 		Rule:        "evaluations = invocations of the real zlint binary (built from the tree under test). 70%: parseable certificates / CRLs (corpus + mutants) as PEM / DER / base64, from files (suffix- or -format-selected) or stdin, 1-3 files per invocation, with seeded selection flags (include/exclude names and sources, nameFilter, profile, config file) and output modes (JSON, -pretty, -summary, -longSummary); stdout is decoded and compared result by result (label and details) with the in-process library under the selection the documentation assigns to those flags, summary tables with the counts of those results. 10%: undecodable inputs (15 kinds + parser-rejected mutants; alone, on stdin, or after a good file). 20%: invalid selectors. Those must exit non-zero without a result object. distinct_nontrivial = distinct (selection, input) result sets compared.",
 		Assumptions: []string{"OCSP responses are not a CLI input", "the library side uses the same build of zlint; the comparison is about the CLI's decoding, selection and printing"},
 		Setup:       c15Setup,
@@ -596,3 +597,44 @@ func init() {
 }
 
 var _ = bytes.Equal
+
+// c15Once: the example configuration printed by the CLI is accepted by the CLI and changes nothing.
+func c15Once(c *mon.Ctx) {
+	ex, se, code := runCLI(nil, "", "-exampleConfig")
+	c.R.Count("cli_invocations", 1)
+	if code != 0 || strings.TrimSpace(ex) == "" {
+		c.V("example-config-fails", fmt.Sprintf("zlint -exampleConfig exits %d: %s", code, clipS(se, 200)), "", nil, nil)
+		return
+	}
+	dir, err := os.MkdirTemp(c.Work, "cliex.")
+	if err != nil {
+		return
+	}
+	defer os.RemoveAll(dir)
+	cfgPath := filepath.Join(dir, "example.toml")
+	_ = os.WriteFile(cfgPath, []byte(ex), 0o644)
+	for k, idx := range W.ByKind[corpus.Cert] {
+		if k%97 != 0 {
+			continue
+		}
+		o := W.Objs[idx]
+		p := filepath.Join(dir, fmt.Sprintf("c%d.pem", k))
+		_ = os.WriteFile(p, encodeInput(o, "pem"), 0o644)
+		a, _, ca := runCLI(nil, dir, p)
+		b, seb, cb := runCLI(nil, dir, "-config", cfgPath, p)
+		c.R.Count("cli_invocations", 2)
+		c.R.Count("evaluations", 2)
+		oa, _ := decodeObjects(a)
+		ob, _ := decodeObjects(b)
+		if ca != 0 || cb != 0 || len(oa) != 1 || len(ob) != 1 {
+			c.V("example-config-not-accepted", fmt.Sprintf("zlint -config <its own -exampleConfig output> exits %d (without: %d): %s", cb, ca, clipS(seb, 200)), "", map[string][]byte{"example.toml": []byte(ex)}, nil)
+			continue
+		}
+		for name, ra := range oa[0] {
+			if rb := ob[0][name]; rb != ra && !c05ClockLints[name] {
+				c.V("example-config-changes-verdict|"+name, fmt.Sprintf("%s: %v without configuration, %v with the CLI's own example configuration (%s)", name, ra, rb, o.Name), name, inputs(o), nil)
+			}
+		}
+		c.R.Count("example_config_comparisons", 1)
+	}
+}
